@@ -116,6 +116,94 @@ def _install():
                 setattr(athlib, name, getattr(U, name))
 
 
+# ---- input corpus: what the suite feeds to the functions the F-specifications describe --------------------------------
+_corpus = {}
+_CORPUS_TARGETS = {
+    'athlib.utils': ['normalize_event_code', 'check_event_code', 'discipline_sort_key', 'text_discipline_sort_key', 'sort_by_discipline',
+                     'get_distance', 'get_duration_event_time', 'check_performance_for_discipline', 'round_up_str_num',
+                     'format_seconds_as_time', 'parse_hms', 'str2num', 'is_hand_timing', 'normalize_gender'],
+    'athlib.athlon_score': ['score', 'performance'],
+    'athlib.hungarian_score': ['score'],
+    'athlib.bulgarian_score': ['score'],
+    'athlib.tyrving_score': ['tyrving_score'],
+    'athlib.qkids_score': ['qkids_score'],
+    'athlib.sportshall_score': ['sportshall_score'],
+    'athlib.uka.agegroups': ['calc_uka_age_group'],
+    'athlib.implements': ['get_implement_weight', 'get_specific_event_code'],
+    'athlib': ['wma_age_grade', 'wma_age_factor', 'wma_world_best', 'wma_athlon_age_factor', 'wma_athlon_age_grade'],
+}
+_CORPUS_METHODS = {'athlib.wma.agegrader': {'AgeGrader': ['calculate_factor', 'calculate_age_grade', 'world_best'],
+                                            'AthlonsAgeGrader': ['calculate_factor', 'calculate_age_grade']}}
+
+
+def _jsonable(v, depth=0):
+    import datetime, decimal
+    if isinstance(v, (str, int, float, bool)) or v is None:
+        return v
+    if isinstance(v, decimal.Decimal):
+        return {'@': 'Decimal', 'v': str(v)}
+    if isinstance(v, datetime.datetime):
+        return {'@': 'datetime', 'v': v.isoformat()}
+    if isinstance(v, datetime.date):
+        return {'@': 'date', 'v': v.isoformat()}
+    if isinstance(v, type):
+        return {'@': 'class', 'v': v.__name__}
+    if isinstance(v, (list, tuple)) and depth < 2 and len(v) <= 64:
+        return [_jsonable(x, depth + 1) for x in v]
+    raise TypeError(type(v).__name__)
+
+
+def _install_corpus():
+    import sys, importlib
+    by_id = {}
+
+    def mk(label, orig, skip_self=False):
+        @functools.wraps(orig)
+        def w(*args, **kwargs):
+            try:
+                a = args[1:] if skip_self else args
+                rec = {'a': [_jsonable(x) for x in a], 'k': {k: _jsonable(v) for k, v in kwargs.items()}, 't': _current_test[0]}
+                if skip_self:
+                    rec['year'] = _jsonable(getattr(args[0], 'year', None))
+                lst = _corpus.setdefault(label, [])
+                if len(lst) < 5000:
+                    lst.append(rec)
+            except Exception:
+                pass
+            return orig(*args, **kwargs)
+        return w
+
+    for modname, names in _CORPUS_TARGETS.items():
+        try:
+            mod = importlib.import_module(modname)
+        except Exception:
+            continue
+        for n in names:
+            f = vars(mod).get(n)
+            if callable(f) and not isinstance(f, type):
+                by_id[id(f)] = mk('%s.%s' % (modname, n), f)
+    for modname, mod in list(sys.modules.items()):
+        if mod is None or not (modname == 'athlib' or modname.startswith('athlib.')):
+            continue
+        for attr, val in list(vars(mod).items()):
+            w = by_id.get(id(val))
+            if w is not None:
+                setattr(mod, attr, w)
+    for modname, classes in _CORPUS_METHODS.items():
+        try:
+            mod = importlib.import_module(modname)
+        except Exception:
+            continue
+        for cname, meths in classes.items():
+            cls = getattr(mod, cname, None)
+            if cls is None:
+                continue
+            for mname in meths:
+                f = cls.__dict__.get(mname)
+                if callable(f):
+                    setattr(cls, mname, mk('%s.%s.%s' % (modname, cname, mname), f, skip_self=True))
+
+
 def _plain(v):
     if isinstance(v, (str, int, float, bool)) or v is None:
         return v
@@ -127,6 +215,8 @@ def _plain(v):
 def pytest_configure(config):
     if _OUT:
         _install()
+        if os.environ.get('VERIF_PYTEST_CORPUS'):
+            _install_corpus()
 
 
 def pytest_runtest_setup(item):
@@ -142,3 +232,5 @@ def pytest_sessionfinish(session, exitstatus):
                 f.write(json.dumps({'kind': 'hj', 'test': t['test'], 'steps': t['steps'],
                                     'recorder_errors': t.get('recorder_errors', [])}) + '\n')
         f.write(json.dumps({'kind': 'schema', 'history': _schema_hist}) + '\n')
+        if _corpus:
+            f.write(json.dumps({'kind': 'corpus', 'calls': _corpus}) + '\n')
